@@ -12,11 +12,11 @@ FLOCQ = ("Axioms (standard library, via Flocq's Reals): ClassicalDedekindReals.s
 
 CLAIMED = {
     "C01": dict(
-        text="Full (safety, unbounded) on the v2 model: for every divider (stateful and faulty ones included, only assumed to return a map), every mix of buffered and unbuffered inputs and every interleaving of producers, consumers, releases and clock ticks, each priority's in-flight counter equals the items of that priority in the output buffer, held by handlers and waiting in the feedback channel, the total never exceeds HandlersQuantity, and inside a round actual+tactic stays within it (C01_v2_accounting/capacity/round_budget). The model is tied to v2 and v1 by exact comparison, after every driver operation, of deliveries, output length, the scheduling state (actual/strategic per priority, read through a build-tagged snapshot hook) and the divider-call arguments; the capacity is monitored on the implementation, in v1 also across AddInput/RemoveInput. v1 theorems (same invariant over the v1 machine) are in progress; the simplified disciplines are covered by monitors only (partial).",
+        text="Full (safety, unbounded) on the v2 model: for every divider (stateful and faulty ones included, only assumed to return a map), every mix of buffered and unbuffered inputs and every interleaving of producers, consumers, releases and clock ticks, each priority's in-flight counter equals the items of that priority in the output buffer, held by handlers and waiting in the feedback channel, the total never exceeds HandlersQuantity, and inside a round actual+tactic stays within it (C01_v2_accounting/capacity/round_budget). The model is tied to v2 and v1 by exact comparison, after every driver operation, of deliveries, output length, the scheduling state (actual/strategic per priority, read through a build-tagged snapshot hook) and the divider-call arguments; the capacity is monitored on the implementation, in v1 also across AddInput/RemoveInput. The same invariant is proved over the v1 machine, whose reachable relation includes AddInput/RemoveInput/Stop steps and in which removed priorities keep their in-flight count (C01_v1_*; the ErrQuantityExceeded branch is unreachable). Simplified disciplines: v2 Simple is the v2 model plus auto-taking handlers and is compared exactly (concurrent Handle calls = held items); v1 Simple is monitored (concurrent Handle calls <= H).",
         ref="5.C01", note=STD + "No axioms. Environment assumption: handlers release only items they received (otherwise the unsigned counter wraps: API misuse).",
         technique="Coq inductive invariant over a pc-machine/environment LTS + fake-time differential correspondence with state snapshots"),
     "C02": dict(
-        text="Full on the v2 model: for every reachable state and configured priority, delivered-of-p ++ item in flight inside send ++ input queue = everything written to p (C02_v2_split), every delivered tag is a configured priority, and at normal termination delivered-of-p = written-of-p: exactly once, in order, nothing invented (C02_v2_exactly_once). Tied to v2 and v1 by exact comparison of the delivered (priority,item) sequence and per-channel consumption; exactly-once/FIFO/tagging monitored on the implementation (v1: tags against the registration in force when the item was read).",
+        text="Full on the v2 model: for every reachable state and configured priority, delivered-of-p ++ item in flight inside send ++ input queue = everything written to p (C02_v2_split), every delivered tag is a configured priority, and at normal termination delivered-of-p = written-of-p: exactly once, in order, nothing invented (C02_v2_exactly_once); v1: per channel, items read ++ input queue = written, reads = delivered + dropped + the item inside send, and nothing is dropped without a stop (C02_v1_*). Tied to v2 and v1 by exact comparison of the delivered (priority,item) sequence and per-channel consumption; exactly-once/FIFO/tagging monitored on the implementation (v1: tags against the registration in force when the item was read).",
         ref="5.C02", note=STD + "No axioms. Put on a closed input is not enabled (Go panics).",
         technique="Coq inductive invariant (per-priority split) + fake-time differential correspondence"),
     "C05": dict(
@@ -28,7 +28,7 @@ CLAIMED = {
         ref="5.C06, 6 (D4)", note=STD + "No axioms. Fairness of Go's select (unbuffered inputs, v1 selects) is an assumption, not modelled probabilistically.",
         technique="Coq bounded-reachability lemmas (variant + no-blocking) + fake-time differential correspondence"),
     "C07": dict(
-        text="Safety full, promptness partial, on the v2 model: the discipline is Done only with nothing in the output, held or in the feedback channel and, without an error, every configured input closed and empty (C07_v2_done_only_when); no error is ever reported for a divider that obeys the sum rule or adds nothing (C07_v2_no_error); once every input is closed and empty and nothing is in the output or held, the scheduler alone reaches Done within an explicit bound provided no item sits inside send (C07_v2_prompt_partial; the general statement is refuted for that pc by a kernel-checked counterexample: a consumer must still take the item). Tied to v2/v1 by exact comparison of the operation at which termination is observed and of Err(); closure never early / always by the end of the finale / nil error monitored (v1: GracefulStop).",
+        text="Safety full, promptness partial, on the v2 model: the discipline is Done only with nothing in the output, held or in the feedback channel and, without an error, every configured input closed and empty (C07_v2_done_only_when); no error is ever reported for a divider that obeys the sum rule or adds nothing (C07_v2_no_error); once every input is closed and empty and nothing is in the output or held, the scheduler alone reaches Done within an explicit bound provided no item sits inside send (C07_v2_prompt_partial; the general statement is refuted for that pc by a kernel-checked counterexample: a consumer must still take the item). Tied to v2/v1 by exact comparison of the operation at which termination is observed and of Err(); closure never early / always by the end of the finale / nil error monitored (v1: GracefulStop; v1 theorem C07_v1_done_without_stop: Done without a stop implies GracefulStop was called, every configured input is drained (closed and empty) and nothing is in flight; for the simplified disciplines termination implies every handler goroutine has exited, C16_simple_stop_returned_all_exited).",
         ref="5.C07", note=STD + "No axioms.",
         technique="Coq invariant + bounded-reachability proof + fake-time differential correspondence"),
     "C15": dict(
